@@ -2032,5 +2032,188 @@ theorem validate_fromArray_ok_iff (ashape : MatS) (rdims cdims : Option (List In
     · rw [if_pos (by rw [bnot_true, isPermOfI_iff]; exact hp)]
       simp [hp]
 
+/-! ### input classes added after the mutation study -/
+
+theorem any_nonpos_false_iff (l : List Int) : l.any (fun e => decide (e ≤ 0)) = false ↔ ∀ e ∈ l, 0 < e := by
+  rw [List.any_eq_false]
+  constructor
+  · intro h e he
+    have := h e he
+    simp only [decide_eq_true_eq] at this
+    omega
+  · intro h e he
+    have := h e he
+    simp only [decide_eq_true_eq]
+    omega
+
+/-- once the extents are positive, the checks of `from_aggregator` are those of the natural-number model -/
+theorem validate_fromAggregatorI_eq (a : SubsArgsI) (hpos : a.shape.any (fun e => decide (e ≤ 0)) = false) :
+    validate_fromAggregatorI a = validate_fromAggregator a.toNat := by
+  unfold validate_fromAggregatorI validate_fromAggregator
+  simp only [SubsArgsI.toNat, hpos]
+  by_cases h0 : (a.subs.all fun row => row.all (fun x => decide (0 ≤ x))) = true
+  · by_cases h1 : a.nvals = a.subs.length
+    · simp [h0, h1]
+    · simp [h0, h1]
+  · simp [h0]
+
+theorem validate_fromAggregatorI_ok_iff (a : SubsArgsI) (hw : ∀ row ∈ a.subs, row.length = a.width) :
+    validate_fromAggregatorI a = .ok () ↔ Pre_subsI a := by
+  unfold Pre_subsI
+  by_cases hpos : a.shape.any (fun e => decide (e ≤ 0)) = false
+  · rw [validate_fromAggregatorI_eq a hpos, validate_fromAggregator_ok_iff a.toNat hw]
+    exact ⟨fun h => ⟨(any_nonpos_false_iff _).1 hpos, h⟩, fun h => h.2⟩
+  · have hneg : ¬ ∀ e ∈ a.shape, 0 < e := fun h => hpos ((any_nonpos_false_iff _).2 h)
+    have hp : a.shape.any (fun e => decide (e ≤ 0)) = true := by
+      cases h : a.shape.any (fun e => decide (e ≤ 0)) with
+      | true => rfl
+      | false => exact absurd h hpos
+    have : validate_fromAggregatorI a = .error .reject := by
+      unfold validate_fromAggregatorI
+      rw [hp]
+      by_cases h0 : (a.subs.all fun row => row.all (fun x => decide (0 ≤ x))) = true
+      · by_cases h1 : a.nvals = a.subs.length
+        · simp [h0, h1]
+        · simp [h0, h1]
+      · simp [h0]
+    rw [this]
+    simp only [error_ne_ok, false_iff]
+    exact fun h => hneg h.1
+
+/-- a subscript row inside a shape shows that every extent is positive -/
+theorem pos_of_rowInShape (shape : List Int) (row : List Int) (h : RowInShape (shape.map Int.toNat) row) :
+    ∀ e ∈ shape, 0 < e := by
+  intro e he
+  obtain ⟨k, hk, rfl⟩ := List.mem_iff_getElem.1 he
+  have := h k (by simpa using hk)
+  rw [getD_of_lt (shape.map Int.toNat) k 0 (by simpa using hk)] at this
+  simp only [List.getElem_map] at this
+  omega
+
+/-- the plain constructor with at least one entry: the range test of the entries implies positive extents -/
+theorem validate_sptensorI_ok_iff (a : SubsArgsI) (hne : a.subs ≠ []) :
+    validate_sptensorI a = .ok () ↔ Pre_subsI a := by
+  unfold validate_sptensorI Pre_subsI
+  rw [validate_sptensor_ok_iff]
+  refine ⟨fun h => ⟨?_, h⟩, fun h => h.2⟩
+  obtain ⟨row, rest, hr⟩ := List.exists_cons_of_ne_nil hne
+  have hrow : RowInShape (a.shape.map Int.toNat) row := h.2.1 row (by
+    show row ∈ a.subs
+    rw [hr]; exact List.mem_cons_self)
+  exact pos_of_rowInShape a.shape row hrow
+
+theorem parseOneD_eq (vshape : List Nat) (isList : Bool) :
+    parseOneD vshape isList = match vectorShape vshape isList with | some s => .ok s | none => .error .reject := by
+  unfold parseOneD vectorShape
+  cases isList
+  · by_cases h : (vshape.filter (fun e => e != 1)).length ≤ 1
+    · simp [h]
+    · simp [h]
+  · simp
+
+theorem validate_ttsvM_ok_iff (a : TtsvArgs) (vshape : List Nat) (isList : Bool) :
+    validate_ttsvM a vshape isList = .ok () ↔ (vectorShape vshape isList).isSome = true ∧ Pre_ttsvM a vshape isList := by
+  unfold validate_ttsvM Pre_ttsvM
+  rw [parseOneD_eq]
+  cases h : vectorShape vshape isList with
+  | none => simp
+  | some s => simp [validate_ttsv_ok_iff]
+
+theorem getD_zero_le_sum (l : List Nat) : l.getD 0 0 ≤ l.sum := by
+  cases l with
+  | nil => simp
+  | cons x xs => simp [List.sum_cons]
+
+theorem validate_ttensorGiven_ok_iff (core factors : Bool) :
+    validate_ttensorGiven core factors = .ok () ↔ Pre_ttensorGiven core factors := by
+  cases core <;> cases factors <;> simp [validate_ttensorGiven, Pre_ttensorGiven, rejectIf]
+
+theorem validate_ktensorTyped_ok_iff (fs : List MatS) (nw : Option Nat) (ff wf : Bool) :
+    validate_ktensorTyped fs nw ff wf = .ok () ↔ Pre_ktensorTyped fs nw ff wf := by
+  unfold validate_ktensorTyped Pre_ktensorTyped
+  cases ff
+  · simp
+  · cases hnw : nw.isSome <;> cases wf <;> simp [validate_ktensor_ok_iff]
+
+theorem validate_subdims_ok_iff (N len : Nat) : validate_subdims N len = .ok () ↔ Pre_subdims N len := by
+  simp [validate_subdims, Pre_subdims]
+
+theorem forall_lt_cons {β : Type} (x : β) (l : List β) (d : β) (P : β → Nat → Prop) :
+    (∀ j, j < (x :: l).length → P ((x :: l).getD j d) j) ↔ P x 0 ∧ ∀ j, j < l.length → P (l.getD j d) (j + 1) := by
+  constructor
+  · intro h
+    refine ⟨by simpa using h 0 (by simp), fun j hj => ?_⟩
+    have := h (j + 1) (by simpa using hj)
+    simpa using this
+  · rintro ⟨h0, h⟩ j hj
+    cases j with
+    | zero => simpa using h0
+    | succ j => simpa using h j (by simpa using hj)
+
+theorem spAssignGo_ok_iff (rhs : List Nat) (ks : List KeyEntry) (m : Nat) :
+    spAssignGo rhs ks m = .ok () ↔
+      ∀ j, j < (keyModes ks).length → ((keyModes ks).getD j KeyEntry.int).fits rhs (m + j) := by
+  induction ks generalizing m with
+  | nil => simp [spAssignGo, keyModes]
+  | cons k ks ih =>
+    cases k with
+    | int =>
+      have : keyModes (KeyEntry.int :: ks) = keyModes ks := by simp [keyModes]
+      rw [this]
+      simp only [spAssignGo]
+      exact ih m
+    | slice stop =>
+      have hk : keyModes (KeyEntry.slice stop :: ks) = KeyEntry.slice stop :: keyModes ks := by simp [keyModes]
+      rw [hk, forall_lt_cons (KeyEntry.slice stop) (keyModes ks) KeyEntry.int (fun e j => e.fits rhs (m + j))]
+      simp only [spAssignGo]
+      have ih' := ih (m + 1)
+      have hshift : (∀ j, j < (keyModes ks).length → ((keyModes ks).getD j KeyEntry.int).fits rhs (m + 1 + j)) ↔
+          (∀ j, j < (keyModes ks).length → ((keyModes ks).getD j KeyEntry.int).fits rhs (m + (j + 1))) := by
+        constructor <;> intro h j hj <;> have := h j hj <;> (rw [show m + 1 + j = m + (j + 1) by omega] at *) <;> exact this
+      cases stop with
+      | true =>
+        simp only [Bool.not_true, Bool.false_and, Bool.false_eq_true, if_false]
+        rw [ih', hshift]
+        simp [KeyEntry.fits]
+      | false =>
+        by_cases hm : rhs.length ≤ m
+        · simp only [Bool.not_false, Bool.true_and, decide_eq_true_eq, hm, if_true, error_ne_ok, false_iff]
+          rintro ⟨h0, _⟩
+          simp only [KeyEntry.fits, Nat.add_zero] at h0
+          omega
+        · simp only [Bool.not_false, Bool.true_and, decide_eq_true_eq, hm, if_false]
+          rw [ih', hshift]
+          simp only [KeyEntry.fits, Nat.add_zero]
+          exact ⟨fun h => ⟨by omega, h⟩, fun h => h.2⟩
+    | list len =>
+      have hk : keyModes (KeyEntry.list len :: ks) = KeyEntry.list len :: keyModes ks := by simp [keyModes]
+      rw [hk, forall_lt_cons (KeyEntry.list len) (keyModes ks) KeyEntry.int (fun e j => e.fits rhs (m + j))]
+      simp only [spAssignGo]
+      have ih' := ih (m + 1)
+      have hshift : (∀ j, j < (keyModes ks).length → ((keyModes ks).getD j KeyEntry.int).fits rhs (m + 1 + j)) ↔
+          (∀ j, j < (keyModes ks).length → ((keyModes ks).getD j KeyEntry.int).fits rhs (m + (j + 1))) := by
+        constructor <;> intro h j hj <;> have := h j hj <;> (rw [show m + 1 + j = m + (j + 1) by omega] at *) <;> exact this
+      by_cases hm : rhs.length ≤ m
+      · simp only [decide_eq_true_eq, hm, if_true, error_ne_ok, false_iff]
+        rintro ⟨h0, _⟩
+        simp only [KeyEntry.fits, Nat.add_zero] at h0
+        omega
+      · simp only [decide_eq_true_eq, hm, if_false]
+        by_cases hl : len = rhs.getD m 0
+        · rw [if_neg (by simp [hl]), ih', hshift]
+          simp only [KeyEntry.fits, Nat.add_zero]
+          exact ⟨fun h => ⟨⟨by omega, hl⟩, h⟩, fun h => h.2⟩
+        · rw [if_pos (by simpa using hl)]
+          simp only [error_ne_ok, false_iff]
+          rintro ⟨h0, _⟩
+          simp only [KeyEntry.fits, Nat.add_zero] at h0
+          exact hl h0.2
+
+theorem validate_spAssign_ok_iff (key : List KeyEntry) (rhs : List Nat) :
+    validate_spAssign key rhs = .ok () ↔ Pre_spAssign key rhs := by
+  unfold validate_spAssign Pre_spAssign
+  rw [spAssignGo_ok_iff]
+  simp
+
 end V19
 end Pyttb
